@@ -20,8 +20,11 @@ EXTRA_TARGETS = ["corr/C12_Corr.vo"]
 PER_SHARD = 12
 DESIGN_REF = "DESIGN.md section 4 C12"
 TECHNIQUE = ("Coq proof (refinement of ring buffer / indexed queue to list and finite-map specs, inductive invariants over operation and "
-             "event sequences, window invariant for all float oracle values) on a hand-written model + per-step differential "
-             "correspondence in vm_compute against the real structures and the real bbrSender driven by a bottleneck simulator")
+             "event sequences, window invariant for all float oracle values, and an inductive invariant of the COMPLETE sender - state "
+             "machine, sampler, tracker, pacer, binary64 arithmetic on primitive floats - over all well-formed call sequences) on a "
+             "hand-written model + differential correspondence in vm_compute: the real structures step by step, sampled events of the real "
+             "bbrSender under a bottleneck simulator recomputed, and whole call histories replayed by the full model from the initial state "
+             "with the full state compared after every call")
 
 
 # ---------------------------------------------------------------- generators: layer 1
@@ -143,15 +146,21 @@ def sim_case(rng, profile, kind, tier):
     c["replayMax"] = 150 if not big else 1200
     bdp = c["cap"] * c["rtt"] // 1000
     c["queue"] = max(20000, bdp * rng.choice([1, 2]))
-    if kind in ("rp-slow", "rp-mid"):
+    if kind in ("rp-slow", "rp-slow-far", "rp-mid"):
         # short histories replayed WHOLE by the model.  rp-slow: 20..40 KB/s for 13 s (~600-1000 calls): STARTUP, DRAIN,
         # PROBE_BW gain cycling, recovery (conservation, growth), min_rtt expiry after 10 s -> PROBE_RTT and its exit;
         # rp-mid: 150..600 KB/s for 3 s (STARTUP -> DRAIN -> PROBE_BW, recovery, losses / aggregation / idle phases / MTU raise)
         c["dumpMax"], c["traceMax"] = 40, 40
-        if kind == "rp-slow":
+        if kind in ("rp-slow", "rp-slow-far"):
             c["cap"] = rng.choice([20000, 25000, 30000, 40000])
             c["rtt"] = rng.choice([10, 20, 40])
             c["dur"] = 13000
+            if kind == "rp-slow-far":
+                # a round trip longer than probeRttTime (200 ms): PROBE_RTT's exit time passes before a round has
+                # passed, so the exit waits for probeRttRoundPassed
+                c["rtt"] = rng.choice([260, 300, 350])
+                c["cap"] = rng.choice([30000, 40000])
+                c["dur"] = 14500
             c["loss"] = rng.choice([0, 0, 5, 10])
             c["agg"] = rng.choice([0, 0, 10])
             c["gap"] = rng.choice([0, 5, 20])
@@ -273,14 +282,16 @@ def gen(rng, tier):
         cases.append(sim_case(rng, prof, kind, tier))
     cases.append(sim_case(rng, rng.choice(PROFILES), "fat", tier))
     # layer 3: short histories replayed whole by the full model, every profile
+    far = rng.choice(PROFILES)
     for prof in PROFILES:
-        cases.append(sim_case(rng, prof, "rp-slow", tier))
+        cases.append(sim_case(rng, prof, "rp-slow-far" if prof == far else "rp-slow", tier))
         cases.append(sim_case(rng, prof, "rp-mid", tier))
-    for prof in PROFILES * (2 if tier == "quick" else 12):
+    # calls limited only by the theorems' precondition; the conservative profile (overestimate avoidance: A0 candidates) twice as often
+    for prof in (PROFILES + ["conservative"]) * (2 if tier == "quick" else 10):
         cases.append(api_case(rng, prof, tier))
     if tier != "quick":
         for _ in range(12):
-            cases.append(sim_case(rng, rng.choice(PROFILES), rng.choice(["rp-slow", "rp-mid"]), tier))
+            cases.append(sim_case(rng, rng.choice(PROFILES), rng.choice(["rp-slow", "rp-slow-far", "rp-mid"]), tier))
         for _ in range(40):
             cases.append(sim_case(rng, rng.choice(PROFILES), rng.choice(["clean", "lossy", "lossy", "probertt", "applimited"]), tier))
         for _ in range(24):
@@ -437,14 +448,27 @@ RULE = ("seeded generator. Layers 2-3: a discrete-event bottleneck simulator ins
         "wrap-around, calls on empty), packetNumberIndexedQueue (emplace with gaps, out-of-order and nil emplace, get, remove out of order, "
         "RemoveUpTo; initial sizes 0..8 and the real 256) and WindowedFilter (max/min/extraAckedEvent instances; ties, expiry, wrap of "
         "the uint64 time difference), every return value and the raw state compared with the model after every step. "
+        "Layer 3 (whole-trace replay): every sim records its first calls (quick 150, thorough 1200; all of them for the short "
+        "rp-slow / rp-slow-far / rp-mid histories, one per profile: 20..40 KB/s for 13 s through STARTUP, DRAIN, PROBE_BW gain cycling, "
+        "recovery, min_rtt expiry, PROBE_RTT and its exit - one of them with a round trip above probeRttTime -, 150..600 KB/s for 3 s "
+        "with losses / aggregation / idle phases / an MTU raise) and the kind `api` drives the real sender with random call sequences "
+        "limited only by the precondition of the layer 3 theorems (packet numbers repeating or going back, acks of packets never sent, "
+        "time standing still or going back, zero bytes in flight reported for a retransmittable packet, drain phases that leave several "
+        "A0 candidates behind; verdict: no panic, window range, pacing floor, CanSend below 4 datagrams).  Each call is packed into "
+        "one number with a digest of the FULL state after it (all bbrSender / bandwidthSampler / maxAckHeightTracker / pacer fields, ring "
+        "layouts, the entry of the last packet, GetCongestionWindow, PacingRate, bandwidthForPacer, pacer budget, TimeUntilSend, CanSend; "
+        "raw ring contents every 50th call); the Coq model replays the calls from newBbrSender's state and must reproduce every digest. "
+        "Inputs read back: rttStats.MinRTT() at the call and the random gain-cycle offset. "
         "Non-trivial = at least 10 steps. Distinct = distinct JSON case.")
 ASSUMPTIONS = [
     "quic-go call discipline (read from sent_packet_handler.go, not modelled): OnPacketSent for every packet with strictly increasing "
     "packet numbers (skips allowed), OnCongestionEventEx only with acked+lost non-empty, acked ascending, numbers previously sent",
     "QUIC packet numbers are < 2^62 and ring lengths < 2^31, so the int64 index arithmetic of the queue cannot wrap (model uses Z there)",
 ]
-TRUSTED = ["modelled rather than verified: bbr/ringbuffer.go, packet_number_indexed_queue.go, windowed_filter.go and the integer window "
-           "skeleton of bbr_sender.go (hand transcription in coq/model/C12_Queue.v, C12_Sender.v)"]
+TRUSTED = ["modelled rather than verified: bbr/ringbuffer.go, packet_number_indexed_queue.go, windowed_filter.go, bbr_sender.go, "
+           "bandwidth_sampler.go, bandwidth.go and common/pacer.go (hand transcription in coq/model/C12_Queue.v, C12_Sender.v, C12_Full.v)",
+           "Coq primitive floats / 63-bit integers (PrimFloat.*, PrimInt63.* listed by Print Assumptions for the layer 3 theorems; no "
+           "FloatAxioms property is used) as the rendering of Go's float64 on amd64, incl. float64 -> int64 / uint64 out-of-range results"]
 LEVEL_TEXT = ("Machine-checked Coq theorems over a hand-written Gallina model of the BBR sender's containers and integer window skeleton. "
               "Layer 1 (exact transcriptions of RingBuffer, packetNumberIndexedQueue, WindowedFilter): the ring refines a list queue, the "
               "indexed queue refines a finite map for EVERY operation sequence and never panics, its slots are exactly the live packet-number "
@@ -457,11 +481,22 @@ LEVEL_TEXT = ("Machine-checked Coq theorems over a hand-written Gallina model of
               "datagram sizes, EntrySlotsUsed <= lastSent-leastUnacked+1 on every trace with increasing packet numbers, CanSend below 4*mds "
               "and pacer wake-up has budget (deadlock half, partial). Tied to /repo on every run by regenerated constants and a per-step "
               "differential run: structures step by step, and the real bbrSender under a bottleneck simulator with ~150 dumped events per "
-              "trace recomputed by the model. Throughput on a loss-free path: supporting evidence only (simulator), no theorem.")
+              "trace recomputed by the model. Layer 3 (the complete bbrSender + bandwidthSampler + maxAckHeightTracker + pacer as a "
+              "deterministic LTS, floats bit-exact on primitive floats, no oracle): for every profile configuration and every call sequence "
+              "that is well-formed (monotime values, int64 MinRTT non-zero at congestion events, non-negative numbers, non-empty events, "
+              "non-decreasing datagram sizes - packet numbers need not even increase) no call panics (ring pops of chooseA0Point, "
+              "lostPackets[len-1], gain table index, divisions), modes / gains / cycle index are table values, DRAIN and PROBE_BW only at "
+              "full bandwidth, mode transitions obey the stated entry / exit conditions, every step refines a step of the layer 2 skeleton "
+              "(so the window and pacing-floor theorems hold with no oracle), CanSend below 4 datagrams and the pacer's wake-up time has "
+              "budget for the sender's datagram size. Tied by whole-history replay with the full state compared after every call. "
+              "Throughput on a loss-free path: supporting evidence only (simulator), no theorem.")
 LEVEL_NOTE = ("Trusted: Coq kernel + vm_compute; hand-written model (tie = sampled differential testing + regenerated ParamsC12); python/Go glue; the "
-              "simulator's rendering of quic-go's call discipline. No axioms. Not proved: the float state machine (mode transitions, gain "
-              "cycling, bandwidth samples - universally quantified as oracles instead), convergence/throughput, quic-go's send loop; "
-              "packet-number spaces restarting at 0 (Initial/Handshake/1-RTT share one controller) are outside the stated precondition.")
+              "simulator's rendering of quic-go's call discipline. No axioms beyond Coq's float / int63 primitives in the layer 3 theorems. "
+              "Not proved: numeric properties of the float results (bandwidth estimate accuracy, gain x BDP bounds), recovery-state range, "
+              "mode transitions lifted to whole events beyond the per-function statements, budget monotonicity after the wake-up time, "
+              "convergence/throughput, quic-go's send loop. Observations (no property clause violated): chooseA0Point's trailing loop "
+              "re-reads Len() while popping and keeps about half of the candidates; quic-go reports bytesInFlight after adding the packet, so "
+              "the sampler's `bytesInFlight == 0` quiescence branch only runs for non-ack-eliciting packets.")
 
 
 def run(ctx):
